@@ -24,11 +24,12 @@ pub static PROP: Prop = Prop {
     fixed,
     replay: Some(replay),
     breadcrumb: true,
+    fuzz: &[],
 };
 
 fn budget(t: Tier) -> Budget {
     Budget {
-        cases: t.pick(40_000, 1_000_000),
+        cases: t.pick(150_000, 2_000_000),
         max_len: 240,
         shards: 16,
         dual_profile: false,
